@@ -204,7 +204,7 @@ def plan_C11(b, tier, seed):
         for c in ("f7", "f11", "f31", "f13", "f17", "f97", "f193", "f257", "f7_2", "f5_2", "f13_2", "f7_3", "f5_4", "f7_6b"):
             t.append(A_field(b, c, "unary"))
         t += [A_field(b, "f257", "unary", "f257h"), B_field_exh(b, "f12289"), B_field_exh(b, "f40961")]
-        for c in ("bls12_381_fq", "bls12_381_fr", "bls12_381_fq2", "mnt6_753_fq3", "mnt4_753_fq", "secp256k1_fq", "z1a", "g64h", "m127h"):
+        for c in ("bls12_381_fq", "bls12_381_fr", "bls12_381_fq2", "mnt6_753_fq3", "mnt4_753_fq", "secp256k1_fq", "z1a", "g64h", "m127h", "t40", "t47h", "t70"):
             t.append(B_field(b, c, seed + 7, 1200))
         # coordinate recovery helpers: both roots in lexicographic order, or none (recover / from_coord events of the aux profile)
         t += [B_curve(b, c, seed + 7, 150, "aux") for c in BIG_CURVES]
@@ -369,7 +369,7 @@ RULES = {
  "C05": "A: MsmMachine over Z_r explored by TLC with the conservation invariant (result + buffered = everything added) on every state; EVERY history New(kind, cap); Add^n; Finalize with n <= LEN over bases {O, G, 2G, -G} (repeated and identity bases) x scalars {0, 1, r-1} x every capacity 0..LEN+1 x {Chunked, HashMap} is replayed on the real accumulators over toy curves; every pair of base/scalar vectors of length <= 3 (mismatched lengths included) and patterned vectors of length 31, 32, 33, 100 through msm (checked), msm_unchecked, msm_bigint, msm_chunks and - through the verification hook - both private bucket methods (the plain one is otherwise unreachable); B: full-size MSMs of 0..1025 terms on BLS12-381 G1/G2, secp256k1, MNT4-753 G1, BN384, Jubjub through all six entry points, validated by TLC as (sum k_i a_i) P",
  "C09": "A: for toy curves over fields with 4, 6, 7 and 8-bit moduli (so 4, 2, 1, 0 spare bits in the top byte; 2-bit and 1-bit flags that fit exactly or spill into an extra byte) and over F_{7^2}: every field element x every flag kind x every flag value: bytes and advertised size; EVERY byte string of the encoded length, one shorter and one longer (<= 2 bytes): decoding outcome, decoded value, flag and bytes consumed (TLC proves Decode.Encode = id and, for field elements, Encode.Decode = id on the specification); every curve point x compressed/uncompressed through affine and rescaled projective serializers and an exact-size buffer; B (Trace_Ser): full-size curves of every shape (0..7 spare bits, flags in a byte of their own for 256- and 384-bit moduli, base fields F_p, F_{p^2}, F_{p^3}, both models) incl. 14 curve crates and the ZCash format of curves/bls12_381 (ZcashCodec.tla): points of all classes (identity, generator multiples, random subgroup points, arbitrary-x points outside the subgroup, coordinates with structure: small, in a subfield, zero components - for a = 0 curves also a chosen y through a cube root) through four serializer entry points, field elements with every flag kind, and decoding of real encodings under 13 mutations (each flag bit, bit flips, truncation, extension, non-reduced coordinate, x+1, y+1, canonical / non-canonical infinity, random, all-ones) with and without validation",
  "C10": "A: EVERY byte string of length 0..size (<= 2 bytes) offered as compressed / uncompressed encoding with validation on and off, on toy curves with cofactor 1, 2, 4, 8, 18, 20, 36 (so most decodable points lie outside the subgroup) and x-coordinates without a root: error vs Ok, the decoded point, panics; with validation the returned point must be on the curve and in the prime-order subgroup; B (Trace_Ser): the same decision at full size on 20 shipped curves incl. the ZCash-format override of curves/bls12_381: crafted and mutated encodings (off-curve uncompressed coordinates, points outside the subgroup, non-canonical infinity, stray bits) with and without validation; a rejection must come with a witness that the bytes denote an invalid point",
- "C11": "A: EVERY element of toy fields (p = 3 mod 4: 7,11,31; two-adicity 2..8: 13,17,97,193,257; F_{p^2}, F_{p^3} with configured constants, F_{p^4}, F_{p^6} = 2 over 3) through sqrt / sqrt_in_place (relation: a root is returned exactly for squares and squares back), legendre (Euler criterion by norm descent, checked by TLC against the existence of a root); exhaustive traces over F_12289 and F_40961 (two-adicity 12, 13); B: shipped fields and the zoo (two-adicity up to 47; Goldilocks 32) with squares, non-squares and boundary values; curve coordinate recovery (get_ys_from_x_unchecked / get_xs_from_y_unchecked / get_point_from_*_unchecked) on shipped curves: both roots in lexicographic order or none, for random, small, structured and known-good coordinates",
+ "C11": "A: EVERY element of toy fields (p = 3 mod 4: 7,11,31; two-adicity 2..8: 13,17,97,193,257; F_{p^2}, F_{p^3} with configured constants, F_{p^4}, F_{p^6} = 2 over 3) through sqrt / sqrt_in_place (relation: a root is returned exactly for squares and squares back), legendre (Euler criterion by norm descent, checked by TLC against the existence of a root); exhaustive traces over F_12289 and F_40961 (two-adicity 12, 13); B: shipped fields and the zoo (Goldilocks 32; primes of two-adicity 40, 46, 47 = the BLS12-377 moduli, and 70 = wider than a limb) with squares, non-squares and boundary values, opened by a scripted prologue that sends the 2-power roots of unity of order 2, 4, ..., 64, 2^(s-1), 2^s (and their products with squares) through legendre and sqrt - the inputs with the longest Tonelli-Shanks jumps; curve coordinate recovery (get_ys_from_x_unchecked / get_xs_from_y_unchecked / get_point_from_*_unchecked) on shipped curves: both roots in lexicographic order or none, for random, small, structured and known-good coordinates",
  "C19": "A: eq / cmp / hash-consistency / is_zero / is_one on all pairs of toy field and tower elements, of boundary big integers, of curve points in ALL pairs of projective representatives (equality and hashing must not depend on the representative; affine vs projective), of polynomials in dense and sparse form; B: the same queries inside full-size traces where equal values arise along different operation sequences",
  "C08": "A: PolyMachine over toy prime fields: all ordered pairs of polynomials of degree < DEG x add/sub/mul/div/scaled add/eq in every dense/sparse mix and API variant (operators by value/reference, assign forms, naive and FFT products, the four divide_with_q_and_r mixes); every polynomial x scaling, evaluation, canonical-form conversions, vanishing-polynomial mul/div and evaluate_over_domain / interpolate over every small domain and coset (radix-2, mixed-radix, general), including polynomials longer than the domain; patterned polynomials of 15..130 coefficients (thorough 1030) x evaluation, linear operations, products and quotients with small and large operands. Results are compared as STORED coefficient vectors, so non-canonical results are visible. non-trivial = register changed or a non-zero value returned",
  "C07": "A: every constructible domain up to MAXN over fields with two-adicity 2..13 and small subgroups 3^k / 5^k: construction for every request 0..MAXN+1 and around the largest subgroup (all three kinds; minimal admissible size or none), generator order, element(i) for all i, elements(), FFT of every unit vector / all-ones / dense vector for EVERY input length 0..n, IFFT, vanishing polynomial and all Lagrange coefficients at every field element (p <= 31) or at in-domain and off-domain samples; four coset offsets; B: full-size domains (Trace_Poly): construction requests around every power of two up to 2^12 (thorough 2^13) and mixed sizes 2^a 3^b over BLS12-381 Fr, BN384 Fq (3^2), secp256k1 Fr (two-adicity 6, falls back to mixed radix), Fp128: FFT / IFFT / coset FFT of random and short vectors, evaluate_over_domain, interpolate, element tables, vanishing polynomials and all Lagrange coefficients (on and off the domain), decided by DftIdentity / LagrangeClosed at a random 250-bit point",
